@@ -7,7 +7,7 @@
 (*             has not rejected (a rejected prefix stays rejected, so      *)
 (*             every accepted text of up to MaxToks tokens is explored,    *)
 (*             and every minimal rejected one)                             *)
-(*   TextChar, Entity, OpenAnchor, HrefChar, HrefEnd, AttrStart, AttrChar, *)
+(*   TextChar, Entity, CutEntity, OpenAnchor, HrefChar, HrefEnd, AttrStart, AttrChar, *)
 (*   AttrEnd, TagClose, CloseAnchor, Reject                                *)
 (*             one action per transition kind of HtmlScan!Delta            *)
 (*                                                                         *)
@@ -30,7 +30,8 @@ Tokens == { AOpen,                                  \* <a href="
             AClose,                                 \* </a>
             <<120>>, <<32>>,                        \* x space
             <<38>>, <<38, 97, 109, 112, 59>>,       \* & &amp;
-            <<34, 32, 114, 101, 108, 61, 34>> }     \* " rel="
+            <<34, 32, 114, 101, 108, 61, 34>>,      \* " rel="
+            <<38, 97, 109, 46, 46, 46>> }           \* &am...  (entity cut by a trim ellipsis)
 
 Init ==
     /\ cs = <<>> /\ ntok = 0 /\ st = "text" /\ pos = 1
@@ -54,6 +55,7 @@ StepAct(a, tagpart) ==
     /\ UNCHANGED <<cs, ntok>>
 
 TextChar    == StepAct("TextChar", FALSE) /\ UNCHANGED <<opens, closes, tags, tagstart>>
+CutEntity   == StepAct("CutEntity", FALSE) /\ UNCHANGED <<opens, closes, tags, tagstart>>
 Entity      == StepAct("Entity", st \in {"href0", "href", "aval", "xval"}) /\ UNCHANGED <<opens, closes, tags, tagstart>>
 OpenAnchor  == StepAct("OpenAnchor", TRUE) /\ opens' = opens + 1 /\ tagstart' = pos /\ UNCHANGED <<closes, tags>>
 HrefChar    == StepAct("HrefChar", TRUE) /\ UNCHANGED <<opens, closes, tags, tagstart>>
@@ -67,7 +69,7 @@ Reject      == StepAct("Reject", FALSE) /\ UNCHANGED <<opens, closes, tags, tags
 
 Next ==
     \/ \E t \in Tokens : Pick(t)
-    \/ TextChar \/ Entity \/ OpenAnchor \/ HrefChar \/ HrefEnd \/ AttrStart \/ AttrChar \/ AttrEnd
+    \/ TextChar \/ Entity \/ CutEntity \/ OpenAnchor \/ HrefChar \/ HrefEnd \/ AttrStart \/ AttrChar \/ AttrEnd
     \/ TagClose \/ CloseAnchor \/ Reject
 
 Spec == Init /\ [][Next]_vars
@@ -88,7 +90,7 @@ C24_NoRawMetaOutsideTags ==
     Accepted =>
         \A k \in 1..Len(cs) :
             k \notin intag => /\ ~IsRawMeta(cs[k])
-                              /\ cs[k] = cAMP => EntLenAt(cs, k) > 0
+                              /\ cs[k] = cAMP => EntLenAt(cs, k) > 0 \/ CutEntLenAt(cs, k) > 0
 
 \* every opening tag is  <a href="H"( name="V")*>  with a non-empty, quoted,
 \* whitespace-free, escaped H and quoted, escaped V
